@@ -15,6 +15,7 @@ From Coq Require Import String Ascii.
 From Coq Require Import List Arith Bool.
 Require Import TT.Model.Str TT.Model.TypeParse TT.Spec.TsLex TT.Spec.TsModule TT.Spec.TsObs.
 Require Import TT.Spec.C10Shape TT.Model.C10Zod TT.Spec.C10Check TT.Proofs.C10Proofs TT.Proofs.C10Items.
+Require Import TT.Proofs.C10ParseTy TT.Proofs.C10LexTy TT.Proofs.C10Oracle.
 Import ListNotations.
 
 (* ---- per key: the shape of the schema agrees with the shape of the declaration ---- *)
@@ -35,6 +36,32 @@ Theorem C10_shapes_param_partial : forall (m : mapping) (f : member),
   map_ok m = true -> clean (m_ty f) -> flag_ok f ->
   shape_agree (zshape (snd (zod_param m f))) (snd (tmember (plain_member m f))) = true.
 Proof. intros m f Hm. exact (param_agree m Hm f). Qed.
+
+(* ---- string level, TypeScript side: for EVERY in-domain type whose Record/tuple nesting fits the
+   specification parser's budget (TYF = 64 levels), lexing and parsing the text the plain renderer
+   prints (and the text ZodVisitor::visit_type_for_interface prints) yields exactly the tree
+   [ts_ty_of m t]: structural induction through the character lexer of TT.Spec.TsLex and the
+   recursive-descent parser of TT.Spec.TsModule, no sweep ---- *)
+Theorem C10_plain_text_denotes : forall (m : mapping) (t : tstruct),
+  map_ok m = true -> dom t = true -> nest (ts_ty_of m t) < TYF ->
+  parse_ty (plain m t) = Some (ts_ty_of m t) /\ parse_ty (ziface m t) = Some (ts_ty_of m t).
+Proof. intros m t Hm Hd Hn. rewrite (ziface_plain m t). split; apply parse_plain; assumption. Qed.
+
+(* the shape statement with the declaration side read from the printed text *)
+Theorem C10_shapes_text_partial : forall (m : mapping) (t : tstruct),
+  map_ok m = true -> dom t = true -> nest (ts_ty_of m t) < TYF ->
+  has_set_t t = false -> has_res_t t = false -> union_under_seq t = false ->
+  exists b, parse_ty (plain m t) = Some b /\ shape_agree (zshape (zex_of m t false)) (tshape b) = true.
+Proof.
+  intros m t Hm Hd Hn Hs Hr Hu. exists (ts_ty_of m t). split; [apply parse_plain; assumption|].
+  apply type_agree; [exact Hm|]. repeat split; assumption.
+Qed.
+
+(* ---- the tag oracle of one key is exact ---- *)
+Theorem C10_oracle_exact : forall (param : bool) (z t : shape),
+  compare_shapes param z t = [] <->
+  shape_agree z t = true /\ (param = true -> nonjson z = [] /\ accepts z t).
+Proof. exact compare_shapes_exact. Qed.
 
 (* the three recorded classes are real: the faithful model disagrees inside each *)
 Theorem C10_shapes_set_refuted : exists t, dom t = true /\ has_set_t t = true /\
@@ -106,8 +133,11 @@ Proof. exact denotation_sweep. Qed.
 
 (* ---- full statements, not asserted ---- *)
 (* string level: what C10_shapes_partial would say with the parse-back proved for all types *)
+(* remaining gap: parse_ex (build_schema m t) = Some (zex_of m t false) for all types (the Zod side of
+   the string level; today: C10_denotation_sweep to depth 2 and the per-case run-time check) *)
 Definition C10_shapes_full_statement : Prop := forall (m : mapping) (t : tstruct),
-  map_ok m = true -> dom t = true -> has_set_t t = false -> has_res_t t = false -> union_under_seq t = false ->
+  map_ok m = true -> dom t = true -> nest (ts_ty_of m t) < TYF ->
+  has_set_t t = false -> has_res_t t = false -> union_under_seq t = false ->
   exists a b, parse_ex (build_schema m t) = Some a /\ parse_ty (plain m t) = Some b /\
               shape_agree (zshape a) (tshape b) = true.
 (* module level: the oracle finds nothing on the model's two modules *)
@@ -118,6 +148,9 @@ Definition C10_modules_full_statement : Prop := forall p : proj,
   v_tags (compare_modules (plain_items p) (zod_items p)) = [].
 
 (* ---- non-vacuity ---- *)
+Example C10_ex_text : nest (ts_ty_of [] (TMap (TPrim (L "number")) (TTuple [TPrim (L "string"); TArr (TOpt (TCustom (L "User")))]))) < TYF /\
+  parse_ty (plain [] (TArr (TOpt (TCustom (L "User"))))) = Some (TyUnion [TyRef [L "User"] []; TyArr (TyRef [L "null"] [])]).
+Proof. split; [vm_compute; repeat constructor|vm_compute; reflexivity]. Qed.
 Definition ex_type : tstruct := TMap (TPrim (L "number")) (TTuple [TPrim (L "string"); TArr (TCustom (L "User"))]).
 Example C10_ex_premises : map_ok [(L "DateTime", L "string")] = true /\ clean ex_type /\ has_opt_t ex_type = false /\
   zex_of [] ex_type false <> zex_of [] (TPrim (L "string")) false.
@@ -134,6 +167,9 @@ Proof. exact clean_example. Qed.
 Print Assumptions C10_shapes_partial.
 Print Assumptions C10_shapes_field_partial.
 Print Assumptions C10_shapes_param_partial.
+Print Assumptions C10_plain_text_denotes.
+Print Assumptions C10_shapes_text_partial.
+Print Assumptions C10_oracle_exact.
 Print Assumptions C10_shapes_set_refuted.
 Print Assumptions C10_shapes_result_refuted.
 Print Assumptions C10_shapes_precedence_refuted.
